@@ -236,6 +236,7 @@ def gen_cases(tier: str, seed: int):
         if case["kind"] == "chain":
             case["frac"] = float(np.exp(rng.uniform(np.log(0.05), np.log(0.9))))
             case["transition"] = ["static", "multinomial", "slice"][i % 3]
+            case["adapt"] = [None, "var", "cov", None][(i // 3) % 4]
         yield case
 
 
@@ -294,6 +295,41 @@ def run_case(case, obs) -> None:
                 if rng.integers(0, 3) == 0:
                     probe.mom = mom2
                 obs.count("moved_state_probes")
+            # a metric adapter replaces system.metric at the end of a warm-up stage and refreshes the momenta of the chain
+            # states it is given (real adapter code below): the refreshed momentum, and everything computed afterwards on
+            # that same state object, must belong to the cotangent space of the NEW metric
+            if rng.integers(0, 2):
+                import mici
+
+                class _T:  # the adapters only use transition.system
+                    system = m.system
+
+                ad = (mici.adapters.OnlineVarianceMetricAdapter() if rng.integers(0, 2) else mici.adapters.OnlineCovarianceMetricAdapter())
+                ad_state = ad.initialize(probe, _T)
+                for _k in range(int(rng.integers(3, 8))):
+                    qa, pa = m.random_point(rng)
+                    ad.update(ad_state, m.state(qa, pa), {}, _T)
+                keep = MON["model"]
+                MON["model"] = None  # the reference metric is only known after finalize
+                try:
+                    ad.finalize([ad_state], [probe], _T, [g])
+                finally:
+                    MON["model"] = keep
+                m.metric_dense = np.array(m.system.metric.array, dtype=float)
+                MON["ctx"] = dict(MON["ctx"], phase=f"after-{type(ad).__name__}.finalize")
+                obs.count("adapter_metric_updates")
+                _c, cot = _residuals(m, probe.pos, probe.mom)
+                if cot > 1e-8 * (1 + float(np.max(np.abs(probe.mom)))):
+                    _viol("adapter-refreshed-momentum:not-cotangent",
+                          f"the momentum assigned by {type(ad).__name__}.finalize has |J M^-1 p| = {cot:.3e} for the new metric")
+                _ = m.system.project_onto_cotangent_space(rng.standard_normal(m.dim), probe)
+                _ = m.system.sample_momentum(probe, g)
+                st = probe.copy()
+                try:
+                    for _ in range(min(case["n"], 3)):
+                        st = integ.step(st)
+                except IntegratorError as e:
+                    obs.count(f"loud_failure.{type(e).__name__}")
         else:
             import mici
 
@@ -305,8 +341,18 @@ def run_case(case, obs) -> None:
             else:
                 sampler = mici.samplers.DynamicSliceHMC(m.system, integ, g, max_tree_depth=4)
             init = m.state(q, p)
-            out = sampler.sample_chains(0, int(rng.integers(3, 9)), [init], adapters=None, display_progress=False,
-                                        trace_funcs=[lambda s: {"pos": s.pos, "mom": s.mom}])
+            if case.get("adapt"):
+                # warm-up with a real metric adapter: the main-stage states are judged against the adapted metric
+                ad = mici.adapters.OnlineVarianceMetricAdapter() if case["adapt"] == "var" else mici.adapters.OnlineCovarianceMetricAdapter()
+                MON["model"] = None  # contracts refer to the metric at construction; the chain states are judged below
+                out = sampler.sample_chains(int(rng.integers(12, 30)), int(rng.integers(3, 9)), [init], adapters=[ad],
+                                            display_progress=False, trace_funcs=[lambda s: {"pos": s.pos, "mom": s.mom}],
+                                            stager=mici.stagers.WindowedWarmUpStager(n_init_slow_window_iter=4, n_init_fast_stage_iter=2, n_final_fast_stage_iter=2))
+                m.metric_dense = np.array(m.system.metric.array, dtype=float)
+                obs.count("chains_run_with_metric_adapter")
+            else:
+                out = sampler.sample_chains(0, int(rng.integers(3, 9)), [init], adapters=None, display_progress=False,
+                                            trace_funcs=[lambda s: {"pos": s.pos, "mom": s.mom}])
             obs.count("chains_run")
             pos_tr, mom_tr = out.traces["pos"][0], out.traces["mom"][0]
             for r in range(pos_tr.shape[0]):
